@@ -18,6 +18,7 @@ import (
 	"fmt"
 	"net/url"
 	"regexp"
+	"strings"
 
 	"github.com/oxia-db/oxia/common/compare"
 	"github.com/oxia-db/oxia/common/constant"
@@ -334,6 +335,8 @@ func secondaryIndexGet(req *proto.GetRequest, db kv.DB) (*proto.GetResponse, err
 func doSecondaryGet(db kv.DB, req *proto.GetRequest) (primaryKey string, secondaryKey string, err error) {
 	indexName := *req.SecondaryIndexName
 	searchKey := fmt.Sprintf(secondaryIdxRangePrefixFormat, indexName, req.Key)
+	// All the entries of this index, and no other key, start with this prefix
+	indexPrefix := fmt.Sprintf(secondaryIdxRangePrefixFormat, indexName, "")
 
 	it, err := db.KeyIterator()
 	if err != nil {
@@ -349,8 +352,20 @@ func doSecondaryGet(db kv.DB, req *proto.GetRequest) (primaryKey string, seconda
 		it.SeekGE(searchKey)
 	}
 
+	if req.ComparisonType == proto.KeyComparisonType_FLOOR &&
+		(!it.Valid() || !strings.HasPrefix(it.Key(), indexPrefix)) {
+		// There is no entry of this index at or after the search key:
+		// the floor, if any, is the entry right before it
+		it.SeekLT(searchKey)
+	}
+
 	for it.Valid() {
 		itKey := it.Key()
+		if !strings.HasPrefix(itKey, indexPrefix) {
+			// The iterator has moved out of the index: there is no match
+			return "", "", nil
+		}
+
 		primaryKey, secondaryKey, err = secondaryIndexPrimaryAndSecondaryKey(itKey)
 		if err != nil && !errors.Is(err, errFailedToParseSecondaryKey) {
 			return "", "", err
@@ -391,5 +406,6 @@ func doSecondaryGet(db kv.DB, req *proto.GetRequest) (primaryKey string, seconda
 		}
 	}
 
-	return primaryKey, secondaryKey, err
+	// The iterator went past the first or the last key of the database without finding a match
+	return "", "", nil
 }
